@@ -1214,6 +1214,131 @@ def native_ops_flush(scratch):
     return _first_reproduced([sc.o_flush_failed_published(mk_scen(6, w=None, r=None), nat, ""), sc.o_flush_failed_published(mk_scen(7, w=None, r=None), nat, "")])
 
 
+# ---- builders: the checker configured is the checker used, by the cache and by its read-only side (C14) -------------
+def builder_glue(funcs, text):
+    def one(pattern):
+        hits = [k for k in funcs if re.search(pattern, k)]
+        if len(hits) != 1:
+            raise mir.MirError("builder function %s not found uniquely (%r)" % (pattern, hits[:3]))
+        return hits[0]
+
+    arc = one(r"^stack::<impl .*>::arc_consistency_checker$")
+    clear = one(r"^stack::<impl .*>::clear_consistency_checker$")
+    build = one(r"^stack::<impl .*>::build$")
+    fnames = [arc, clear, build]
+    viol = {}
+    decls = []
+    n = 0
+
+    def write_ref(ex, ref, v):
+        cell, projs = ref[1], list(ref[2:])
+        if not projs:
+            cell[0] = v
+            return
+        obj = cell[0]
+        for q in projs[:-1]:
+            obj = ex.project(obj, q)
+        last = projs[-1]
+        if last[0] != "field":
+            raise mir.MirError("write through a non-field projection")
+        if obj[0] == "adt":
+            obj[3][last[1]] = v
+        elif obj[0] == "tuple":
+            obj[1][last[1]] = v
+        else:
+            raise mir.MirError("write into %s" % obj[0])
+
+    def m_clone_from(ex, args, pc):
+        dst, src = args
+        v = ex.project(src, ("deref",)) if src[0] == "ref" else src
+        write_ref(ex, dst, v)
+        return [([], ("tuple", []))]
+
+    def m_clone(ex, args, pc):
+        v = ex.project(args[0], ("deref",)) if args[0][0] == "ref" else args[0]
+        return [([], v)]
+
+    def m_take(ex, args, pc):
+        old = ex.project(args[0], ("deref",))
+        write_ref(ex, args[0], ("adt", "Option", 0, {}))
+        return [([], old)]
+
+    def m_default_of(tyname):
+        def m(ex, args, pc):
+            hits = [k for k in funcs if k.endswith("::default") and re.search(r"-> %s \{$" % tyname, funcs[k].sig)]
+            if len(hits) != 1:
+                raise mir.MirError("Default for %s not found uniquely" % tyname)
+            res = ex.run(hits[0], [], 1)
+            return [(rpc, rv) for (rpc, rv, _e) in res]
+        return m
+
+    def m_vec_default(ex, args, pc):
+        return [([], ("opaque", "EMPTY_VEC", "Vec"))]
+
+    models = {r"<ReadOnlyCacheBuilder as Default>::default$": m_default_of("ReadOnlyCacheBuilder"), r"<ReadOnlyCache as Default>::default$": m_default_of("ReadOnlyCache"),
+              r"<Vec<.*> as Default>::default$": m_vec_default, r"<Option<.*> as Default>::default$": lambda ex, a, pc: [([], ("adt", "Option", 0, {}))], r"as Clone>::clone_from$": m_clone_from, r"as Clone>::clone$": m_clone, r"^Option::<.*>::take$": m_take,
+              r"^Vec::<.*>::is_empty$": None}
+    models = {k: v for k, v in models.items() if v is not None}
+
+    dflt = [k for k in funcs if k.endswith("::default") and re.search(r"-> CacheBuilder \{$", funcs[k].sig)]
+    if len(dflt) != 1:
+        raise mir.MirError("Default for CacheBuilder not found uniquely")
+
+    def fresh_builder(run, readers):
+        # the builder's layout is whatever `CacheBuilder::default()` constructs (field order of the current source)
+        res = run.ex.run(dflt[0], [])
+        if len(res) != 1:
+            raise mir.MirError("CacheBuilder::default has several outcomes")
+        return res[0][1]
+
+    def checker_of(cache):
+        """(checker of the cache, checker handed to the read-only side) as identities"""
+        return cache
+
+    inline = lambda nme: bool(re.search(r"(CacheBuilder::(arc_consistency_checker|clear_consistency_checker|build)|readonly::.*::(arc_consistency_checker|clear_consistency_checker|build)|"
+                                        r"ReadOnlyCacheBuilder as Default>::default|ReadOnlyCache as Default>::default)$", nme))  # noqa: E731
+    for readers in ("none", "some"):
+        for script in (("set",), ("set", "clear"), ("clear",), ()):
+            run = Run(funcs, inline=inline, extra_models=models)
+            decls += run.ex.decls
+            cell = [fresh_builder(run, readers)]
+            paths_pc = [[]]
+            ok = True
+            for step in script:
+                if step == "set":
+                    res = run.ex.run(arc, [("ref", cell), ("adt", "Option", 1, {0: ("opaque", "CHECKER", "Arc<dyn Fn>")})])
+                else:
+                    res = run.ex.run(clear, [("ref", cell)])
+                if len(res) != 1:
+                    ok = False
+                    break
+            if not ok:
+                viol.setdefault("builder", []).append(([], "a builder method has several outcomes (unexpected control flow)"))
+                continue
+            mark = len(run.log)
+            res = run.ex.run(build, [cell[0]])
+            for (pc, rv, _env) in res:
+                n += 1
+                want = "CHECKER" if script and script[-1] == "set" else None
+                ident = run.ident(rv)
+                flat = list(_flat(ident))
+                # the built cache: its own checker field, and the checker its read-only side is constructed with
+                ro = [e for e in run.log[mark:] if re.search(r"ReadOnlyCache::new$", e["callee"]) and e["pc"] == pc[:len(e["pc"])]]
+                got = (1 if "CHECKER" in flat[:8] or flat.count("CHECKER") >= 1 and not ro else 0)
+                got = flat.count("CHECKER") if not ro else (min(flat.count("CHECKER"), 1) + (1 if any("CHECKER" in list(_flat(e["args"])) for e in ro) else 0))
+                if want and got < 2:
+                    viol.setdefault("builder", []).append((pc, "with %s read-only caches the configured checker reaches %d of the two places that use it (the cache and its read-only side)" % (readers, got)))
+                if not want and got:
+                    viol.setdefault("builder", []).append((pc, "a cleared / never configured checker is still installed"))
+    obs = []
+    vs = viol.get("builder", [])
+    goal = "true" if not vs else "(not (or %s))" % " ".join("(and true %s)" % " ".join(pc) for (pc, _m) in vs[:40])
+    obs.append(Obligation("C14: builders: the consistency checker configured on the builder is the one used by the built cache and by its read-only side, with or without read-only caches; clearing removes both",
+                          decls, [], goal, fnames, note=("; ".join(sorted(set(m for (_pc, m) in vs))[:3]) or "no explored path violates the rule"), native_py=NATIVE.get("checker")))
+    obs.append(Obligation("witness: builder scripts explored", [], [], "false" if n >= 8 else "true", fnames, expect="sat", note="%d built caches inspected" % n))
+    return obs, dict(models=["clone / clone_from / take as value copies"], inlined=fnames)
+
+
 # ---- the read-only stack: ReadOnlyCache::{get, touch}::doit (bounded unrolling of the scan) ---------------------------
 MAX_LEVELS = 3
 
